@@ -1,6 +1,6 @@
 """Contracts for src/dhkex/x25519.rs."""
 from contracts.c_lib import from_bytes_clauses
-from contracts.c_dhkex import SK_TO_PK, DERIVE
+from contracts.c_dhkex import SK_TO_PK, DERIVE, DH
 
 def apply(F):
     F.use()
@@ -33,7 +33,7 @@ def apply(F):
     }
 ''')
     F.contract(X, r'fn sk_to_pk\b', ret='r', clauses=SK_TO_PK + ',\n')
-    F.contract(X, r'fn dh\b', ret='r', attrs=['#[verifier::external_body]'], discharged_by='kani:x25519_dh_zero_check')
+    F.contract(X, r'fn dh\b', ret='r', attrs=['#[verifier::external_body]'], discharged_by='kani:x25519_dh_zero_check', clauses=DH + ',\n')
     F.contract(X, r'fn derive_keypair<Kdf: KdfTrait>', ret='r', clauses=DERIVE + ',\n')
     F.wrap([], X[0])
     F.append('verus!{ broadcast use {tnum_values, x_lens, x_ss_len, x_fn_lens, x_base_len, ga_len}; }')
